@@ -1,6 +1,6 @@
 (* C13 — Topic aliases always resolve to the intended topic at the receiver.  Statements only;
    proofs in Conn/Session.v, Conn/AliasTable.v, Conn/AliasInv.v and Conn/AliasHist.v.  Nothing else may be added to this file. *)
-From MQ Require Import Base.Prelude Conn.Types Conn.TopicAlias Conn.ConnRecord Conn.Step Corr.ConnTrace Conn.Run Conn.Session Conn.AliasTable Conn.AliasInv Conn.AliasHist.
+From MQ Require Import Base.Prelude Conn.Types Conn.TopicAlias Conn.ConnRecord Conn.Step Corr.ConnTrace Conn.Run Conn.Session Conn.AliasTable Conn.AliasInv Conn.AliasHist Conn.PairQos Conn.AliasPair.
 
 (* receive side, every state: an aliased PUBLISH with an empty topic is delivered with exactly the
    topic bound to that alias on this connection, one with a topic is delivered as it is, and
@@ -103,6 +103,55 @@ Theorem C13_fresh_history_resolvable : forall g v ops,
 Proof. exact fresh_history_resolvable. Qed.
 Print Assumptions C13_fresh_history_resolvable.
 
+(* THE PAIR.  The ghost receiver of the theorems above is what a library endpoint does: [tracks r G] — the receive-side
+   table r answers like the ghost table G for every alias within the announced maximum.  One PUBLISH (any QoS, as far
+   as alias resolution goes): whatever the ghost resolves it to, the library's receiver resolves it to, and [tracks]
+   holds again after it *)
+Theorem C13_receiver_implements_ghost : forall g c r G q t,
+  c_ta_recv c = Some r -> tracks r G ->
+  (match k_alias q with Some a => 1 <= a <= tr_max r | None => True end) ->
+  rx_topic (rx_step G q) q = Some t ->
+  exists c' q' r', resolve_recv_alias g c q = Ok (c', q', false, []) /\ k_topic q' = t /\
+                   c_ta_recv c' = Some r' /\ tr_max r' = tr_max r /\ tracks r' (rx_step G q).
+Proof. exact receiver_implements_ghost. Qed.
+Print Assumptions C13_receiver_implements_ghost.
+
+(* a whole stream of PUBLISH packets delivered in order: the topics the library delivers are the ghost's, one by one *)
+Theorem C13_receiver_implements_ghost_stream : forall g qs c r G ts,
+  c_ta_recv c = Some r -> tracks r G -> aliases_in_range (tr_max r) qs -> ghost_topics G qs = Some ts ->
+  exists c', recv_topics g c qs = Some (c', ts).
+Proof. exact receiver_implements_ghost_stream. Qed.
+Print Assumptions C13_receiver_implements_ghost_stream.
+
+(* sender and receiver together: whatever PUBLISH the sending application hands to send() (alias chosen by it, by
+   automatic mapping or replacement, or none), if a packet is requested then the library's receiver delivers it with the
+   topic the application asked for, and the sender's table, the receiver's table and the ghost are related as before *)
+Theorem C13_pair_alias_step : forall gs gr cs cr r G p,
+  agree cs G -> c_ta_recv cr = Some r -> tracks r G ->
+  match send_publish_v5 gs cs p with
+  | Ok (cs', e) =>
+      (forall s, c_ta_send cs' = Some s -> ts_max s <= tr_max r) ->
+      match sends e with
+      | [] => agree cs' G
+      | [q] => exists cr' q' r', resolve_recv_alias gr cr q = Ok (cr', q', false, []) /\ intended G p (k_topic q') /\
+                                 agree cs' (rx_step G q) /\ c_ta_recv cr' = Some r' /\ tr_max r' = tr_max r /\ tracks r' (rx_step G q)
+      | _ => False
+      end
+  | Panic _ => True
+  end.
+Proof. exact alias_pair_step. Qed.
+Print Assumptions C13_pair_alias_step.
+
+(* the whole receive path of a QoS 0 PUBLISH: notified once, with that topic, no error *)
+Theorem C13_deliver_qos0_with_alias : forall g c r G q t,
+  c_version c = V50 -> c_ta_recv c = Some r -> tracks r G ->
+  (match k_alias q with Some a => 1 <= a <= tr_max r | None => True end) ->
+  k_type q = T_PUBLISH -> k_qos q = 0 -> rx_topic (rx_step G q) q = Some t ->
+  exists c' e q' r', deliver g c q = Ok (c', e) /\ notifies e = [q'] /\ errors e = [] /\ sends e = [] /\ k_topic q' = t /\
+                     c_ta_recv c' = Some r' /\ tr_max r' = tr_max r /\ tracks r' (rx_step G q).
+Proof. exact deliver_qos0_with_alias. Qed.
+Print Assumptions C13_deliver_qos0_with_alias.
+
 (* C13_partial: nothing of the property is left to the monitor alone on the MODEL side; the
    implementation is judged by mon_c13 (an independent receiver-side table replayed over the packets
    it actually requested) and tied to the model by the correspondence.  [res_evs] states resolvability;
@@ -133,5 +182,32 @@ Example C13_send_nonvacuous :
     | Panic _ => False
     end
   | Panic _ => False
+  end.
+Proof. vm_compute. repeat split; reflexivity. Qed.
+
+(* the pair theorems are not vacuous: after a handshake announcing Topic Alias Maximum 4 towards the server, seven
+   QoS 0 publications — two aliases bound, used with an empty topic, alias 1 rebound — are requested by the client and
+   delivered by the server with exactly the intended topics; the limits of the two tables are equal *)
+Example C13_pair_nonvacuous :
+  let gs := mkCfg RClient 65535 2 in
+  let gr := mkCfg RServer 65535 2 in
+  let cn := mkPkt 1 V50 0 0 false false [] None 0 0 24 false 0 true 0 (Some 5) None None None None in
+  let ca := mkPkt 2 V50 0 0 false false [] None 0 0 11 true 0 false 0 (Some 4) None None None None in
+  let ops_s := [OSend cn; ORecv [32;9;0;0;6;33;0;2;39;0;0;0;50] (PROk ca)] in
+  let ops_r := [ORecv [16;13;0;4;77;81;84;84;5;2;0;0;0;0;0] (PROk cn); OSend ca] in
+  let pa := fun top al pay => mkPkt 3 V50 0 0 false false top al (match al with Some _ => 3 | None => 0 end) pay 20 false 0 false 0 None None None None None in
+  let ps := [pa [116] (Some 1) 0; pa [] (Some 1) 1; pa [117;118] (Some 2) 2; pa [] (Some 2) 3; pa [119] (Some 1) 4; pa [] (Some 1) 5; pa [120] None 6] in
+  match run_state gs (conn_new gs V50) ops_s, run_state gr (conn_new gr V50) ops_r with
+  | Some cs, Some cr =>
+     let fix go (c : conn) (l : list pkt) (acc : list pkt) := match l with [] => Some (c, acc) | p :: tl =>
+        match send_publish_v5 gs c p with Ok (c', e) => go c' tl (acc ++ sends e) | Panic _ => None end end in
+     match go cs ps [] with
+     | Some (cs', qs) =>
+         length qs = 7%nat /\ option_map ts_max (c_ta_send cs) = Some 4 /\ option_map tr_max (c_ta_recv cr) = Some 4 /\
+         option_map snd (recv_topics gr cr qs) = Some [[116]; [116]; [117; 118]; [117; 118]; [119]; [119]; [120]] /\
+         ghost_topics [] qs = Some [[116]; [116]; [117; 118]; [117; 118]; [119]; [119]; [120]]
+     | None => False
+     end
+  | _, _ => False
   end.
 Proof. vm_compute. repeat split; reflexivity. Qed.
